@@ -18,7 +18,7 @@ import torch  # noqa: E402
 
 import inferno  # noqa: E402,F401
 from inferno.extra import ExactNeuron  # noqa: E402
-from inferno.neural import DeltaCurrent, LinearDense, LinearDirect, LinearLateral, Conv2D, Serial  # noqa: E402
+from inferno.neural import DeltaCurrent, LinearDense, LinearDirect, LinearLateral, Conv2D, Serial, Biclique  # noqa: E402
 from inferno import learn  # noqa: E402
 from inferno.learn.trainers import two_factor_stdp as _two  # noqa: E402
 from inferno.functional import exp_stdp_post_kernel, exp_stdp_pre_kernel  # noqa: E402
@@ -137,6 +137,16 @@ def make_trainer(rule: str, hp: dict, reduction: str):
     return cls(**kw)
 
 
+class _CellView:
+    """one (connection, neuron) cell of a Biclique, with the attributes the drivers use on a Serial layer"""
+
+    def __init__(self, layer, cname, nname):
+        self.layer = layer
+        self.cell = layer.get_cell(cname, nname)
+        self.connection = self.cell.connection
+        self.neuron = self.cell.neuron
+
+
 class MultiRun:
     """Several real cells trained by ONE real trainer.  hdrs: list of cell headers (rule, hp, conn,
     dt, B, reduction, dmax, delay); all share hdrs[0]["rule"].  via = "ctor": the trainer is built
@@ -153,9 +163,23 @@ class MultiRun:
         specs = [trainer_spec(self.rule, h["hp"], h.get("reduction", "sum")) for h in hdrs]
         cls, kw0 = specs[0]
         self.trainer = cls(**(decoy(kw0) if via == "override" else kw0))
+        # shared = True: the cells are the connections of ONE Biclique feeding ONE neuron group (same step time,
+        # same postsynaptic spikes): the trainer's monitor pool may alias their monitors, and must do so only
+        # where the monitors really are interchangeable
+        self.shared = bool(hdrs[0].get("shared"))
+        if self.shared:
+            dt = float(hdrs[0]["dt"])
+            B = int(hdrs[0].get("B", 1))
+            parts = [build_layer(h["conn"], dt, B, h.get("dmax")) for h in hdrs]
+            conns = [(f"c{j}", q.connection) for j, q in enumerate(parts)]
+            self.biclique = Biclique(conns, [("n", parts[0].neuron)])
+            self._keep = parts
         for j, h in enumerate(hdrs):
             dt = float(h["dt"])
-            layer = build_layer(h["conn"], dt, int(h.get("B", 1)), h.get("dmax"))
+            if self.shared:
+                layer = _CellView(self.biclique, f"c{j}", "n")
+            else:
+                layer = build_layer(h["conn"], dt, int(h.get("B", 1)), h.get("dmax"))
             layer.connection.weight = torch.zeros_like(layer.connection.weight)
             self.layers.append(layer)
             self.dts.append(dt)
@@ -173,6 +197,10 @@ class MultiRun:
         conn.delay = (torch.zeros_like(conn.delay) + d.to(conn.delay.dtype)).clone()
 
     def forward_layers(self, inputs):
+        if self.shared:
+            self.biclique({f"c{j}": (x,) for j, (x, _) in enumerate(inputs)},
+                          neuron_kwargs={"n": {"override": inputs[0][1]}})
+            return
         for layer, (x, y) in zip(self.layers, inputs):
             layer(x, neuron_kwargs={"override": y})
 
